@@ -71,7 +71,7 @@ def run(ctx):
     cfg = model_cfg(first if quick else first + [1, 7, 49, 128, 159, 162, 170, 255], 3, [0], 0, REF)
     ctx.add_tlc(core.tlc_or_die(ctx.workdir, "DERModel", cfg, tag="ref"))
     if not quick:
-        cfg = model_cfg([2, 3, 4, 6, 48, 160], 3, [0, 1, 2, 127, 128, 129, 255], 2, REF[:9])
+        cfg = model_cfg([2, 3, 4, 6, 48, 160], 3, [0, 1, 127, 128, 255], 1, REF[:9])
         ctx.add_tlc(core.tlc_or_die(ctx.workdir, "DERModel", cfg, tag="ref5", timeout=3000))
     for inv in ("NoIntAccepted", "NoObjAccepted", "NoBitsAccepted"):
         r = core.tlc(ctx.workdir, "DERModel", model_cfg([2, 3, 6], 3, [0], 0, [inv]), tag="vac" + inv)
